@@ -86,13 +86,13 @@ func H_C18_strkeys() {
 	a, ua := vC18HostString("a")
 	// the partner: a fixed host string in each byte class
 	sel := vNondetInt("b.sel")
-	vAssume(sel >= 0 && sel <= 3)
+	vAssume(sel >= 0 && sel <= vBound("P"))
 	sel = vConcretize(sel)
 	b, ub := "\xef\xbf\xbd", uint64(1<<48|0xFFFD<<32) // U+FFFD, well-formed
 	switch sel {
-	case 1:
-		b, ub = "\xfe", uint64(1<<48|0xFFFD<<32) // ill-formed: decodes to U+FFFD
 	case 2:
+		b, ub = "\xfe", uint64(1<<48|0xFFFD<<32) // ill-formed: decodes to U+FFFD
+	case 1:
 		b, ub = "A", uint64(1<<48|0x41<<32)
 	case 3:
 		b, ub = "\xc3\xa9", uint64(1<<48|0xE9<<32) // U+00E9
